@@ -379,7 +379,103 @@ def rule_determinism(ck):
         ck.violation(node, f"{what} in a module reachable from assembly: the result may differ between runs or depend on PYTHONHASHSEED", construct=f"{what.split(' (')[0]} in {name}")
 
 
+MEMO_DECORATORS = {"lru_cache", "cache", "cached_property", "memoize", "memoized", "singledispatch"}
+
+
+def rule_memo(ck):
+    """A memoising decorator is a process-global table written on every call: what one assembly parsed or computed is handed to the next."""
+    repo = ck.repo
+    n = 0
+    for q, fn in repo.all_functions():
+        if isinstance(fn, ast.Lambda):
+            continue
+        n += 1
+        for d in fn.decorator_list:
+            f = d.func if isinstance(d, ast.Call) else d
+            name = f.attr if isinstance(f, ast.Attribute) else (f.id if isinstance(f, ast.Name) else None)
+            if name is None:
+                continue
+            ck.instance(("decorator", q, name), {"function": q, "decorator": norm_text(d)[:60]}, fn=q)
+            target = name
+            if isinstance(f, ast.Name) and f.id in fn._module.imports and fn._module.imports[f.id][0] == "ext":
+                target = fn._module.imports[f.id][1].split(".")[-1]
+            if target in MEMO_DECORATORS and target != "singledispatch":
+                ck.violation(fn, f"{q.split('::')[1]} is memoised with @{norm_text(d)[:40]}: the cache is a process-global table that outlives an assembly, so a later assembly in the same process receives the "
+                                 "object computed for an earlier one (a parse tree carries values and flags stored on its nodes while compiling: operators.wrap_impure, the *_error_emitted flags)",
+                             construct=f"memoised function {q.split('::')[1]}")
+    # module-level cache dictionaries are in the G5.inv census; here: objects created once per process by default arguments
+    for q, fn in repo.all_functions():
+        if isinstance(fn, ast.Lambda) or q.split("::")[0] in PHASE_SKIP:
+            continue
+        for dflt in fn.args.defaults + [k for k in fn.args.kw_defaults if k is not None]:
+            if isinstance(dflt, (ast.List, ast.Dict, ast.Set)) or (isinstance(dflt, ast.Call) and isinstance(dflt.func, ast.Name) and dflt.func.id in ("list", "dict", "set", "bytearray", "defaultdict")):
+                ck.instance(("mutable-default", q), {"function": q, "default": norm_text(dflt)}, fn=q)
+                params = [a.arg for a in fn.args.args + fn.args.kwonlyargs]
+                # which parameter
+                written = [m for m in walk_local(fn) if isinstance(m, ast.Call) and isinstance(m.func, ast.Attribute) and m.func.attr in MUTATORS and isinstance(m.func.value, ast.Name) and m.func.value.id in params]
+                written += [m for m in walk_local(fn) if isinstance(m, (ast.Assign, ast.AugAssign)) and any(isinstance(t, ast.Subscript) and isinstance(t.value, ast.Name) and t.value.id in params
+                                                                                                            for t in (m.targets if isinstance(m, ast.Assign) else [m.target]))]
+                if written:
+                    ck.violation(written[0], f"{q.split('::')[1]} has a mutable default argument ({norm_text(dflt)}) and updates a parameter in place: the default object is created once per process and keeps what earlier assemblies put in it",
+                                 construct=f"mutable default updated in {q.split('::')[1]}")
+    if n < 300:
+        ck.unknown(f"only {n} functions seen (over 500 in the package)")
+
+
+def rule_vivify(ck):
+    """collections.defaultdict globals: a subscript READ inserts the key. At run time such a read must be dominated by a membership guard."""
+    from ..engine import flow
+    repo = ck.repo
+    objs, _ = global_objects(repo)
+    dd = {k for k, s in objs.items() if isinstance(getattr(s, "value", None), ast.Call) and norm_text(s.value.func).split(".")[-1] == "defaultdict"}
+    ck.instance("defaultdict-globals", {"objects": sorted(f"{m}.{n}" for m, n in dd)})
+    if ("devices", "DEVICES") not in dd:
+        ck.unknown("devices.DEVICES is no longer recognised as a module-level defaultdict (anchor of the rule)")
+    # membership-test functions: return a value computed from `x in OBJ`
+    guards_fns = {}
+    for (m, nm) in dd:
+        for q, fn in repo.all_functions():
+            if q.split("::")[0] == m and isinstance(fn, ast.FunctionDef):
+                if any(isinstance(c, ast.Compare) and any(isinstance(o, ast.In) for o in c.ops) and norm_text(c.comparators[-1]) == nm for c in ast.walk(fn)) \
+                        and not any(isinstance(x, ast.Subscript) and norm_text(x.value) == nm for x in ast.walk(fn)):
+                    guards_fns.setdefault((m, nm), set()).add(fn.name)
+    for (m, nm) in sorted(dd):
+        mod = repo.modules[m]
+        for q, fn in mod.functions.items():
+            full = f"{m}::{q}"
+            if isinstance(fn, ast.Lambda) or is_import_time(repo, full):
+                continue
+            loads = [x for x in walk_local(fn) if isinstance(x, ast.Subscript) and isinstance(x.ctx, ast.Load) and norm_text(x.value) == nm]
+            if not loads:
+                continue
+            gnames = guards_fns.get((m, nm), set())
+
+            def test_facts(test):
+                neg = isinstance(test, ast.UnaryOp) and isinstance(test.op, ast.Not)
+                t = test.operand if neg else test
+                hit = False
+                if isinstance(t, ast.Call) and flow.call_name(t) in gnames:
+                    hit = True
+                if isinstance(t, ast.Compare) and len(t.ops) == 1 and norm_text(t.comparators[0]) == nm and isinstance(t.ops[0], (ast.In, ast.NotIn)):
+                    hit = True
+                    if isinstance(t.ops[0], ast.NotIn):
+                        neg = not neg
+                if not hit:
+                    return set(), set()
+                return (set(), {"member"}) if neg else ({"member"}, set())
+            for x in loads:
+                facts = flow.facts_before(fn, x, lambda n_: set(), None, test_facts)
+                ok = facts is not flow.TOP and facts is not None and "member" in facts
+                ck.instance(("defaultdict-read", full, norm_text(x)), {"function": full, "read": norm_text(x), "membership guard dominates": bool(ok)}, fn=full)
+                if not ok and facts is not flow.TOP:
+                    ck.violation(x, f"run-time read {norm_text(x)} of the module-level defaultdict {m}.{nm} is not preceded by a membership test: a missing key is INSERTED by the read, the table survives the "
+                                    f"assembly, and later membership tests ({', '.join(sorted(gnames)) or 'x in ' + nm}) answer differently (a plain file '~name' becomes a device path for the rest of the process)",
+                                 construct=f"unguarded read of defaultdict {nm}")
+
+
 def run(ck):
+    ck.run_rule("G5.memo", "no memoised functions, no updated mutable defaults (process-global tables in disguise)", 40, rule_memo)
+    ck.run_rule("G5.viv", "module-level defaultdicts are read at run time only behind a membership guard", 2, rule_vivify)
     ck.run_rule("G5.inv", "inventory of process-global mutable state; every object classified", 8, rule_inventory)
     ck.run_rule("G5.bal", "context managers restore global state on normal and exceptional exit; used only in `with`", 18, rule_balance)
     ck.run_rule("G5.det", "no determinism sources in assembly modules (with positive control)", 10, rule_determinism)
